@@ -201,6 +201,21 @@ HARNESSES = [
          backends=["default", "kissat"],
          bound="true block size 1024/2048/4096 (one per query), default group size, 2..30 groups (symbolic), intact bit of each of the 7 "
                "backup groups symbolic, device-size query works or (one query) fails; ctx->blocksize 0 or a -B value per query; fs absent or present"),
+    dict(name="main_mke2fs", src="main_mke2fs.c",
+         cut_statics={"misc/mke2fs.c": ["PRS", "show_stats", "read_bb_file", "test_disk", "handle_bad_blocks", "packed_allocate_tables",
+                                         "write_inode_tables", "create_root_dir", "create_lost_and_found", "reserve_inodes",
+                                         "create_bad_block_inode", "create_journal_dev", "fix_cluster_bg_counts",
+                                         "create_quota_inodes"]},
+         extra_src=["lib/ext2fs/blknum.c", "lib/ext2fs/io_manager.c"],
+         funcs=["vf_real_main", "mke2fs_discard_device", "zap_sector", "should_do_undo", "mke2fs_setup_tdb"],
+         configs=[{"STOP_AT": 1}, {"STOP_AT": 2}, {"STOP_AT": 3}, {"STOP_AT_STATS": None}],
+         unwind=6, unwindset=["mke2fs_discard_device.0:5", "strlen.0:10", "strcpy.0:10", "strcmp.0:12", "strcasecmp.0:8",
+                              "strncpy.0:70", "memcmp.0:17", "strchr.0:6", "io_channel_set_options.0:3", "vf_real_main.0:17",
+                              "vf_real_main.1:3", "vf_real_main.2:3", "vf_real_main.3:3", "vf_real_main.4:3", "memset.0:70"],
+         backends=["default", "kissat"],
+         bound="every global PRS() leaves behind symbolic (noaction 0..2, quiet, verbose, discard, dev_size, cflag, super_only, "
+               "lazy_itable_init, undo file, journal device/size, bad-blocks file, uuid/os/label/mount dir/src root present or not, "
+               "fs_param features/flags), 4 KiB blocks, <= 1.5M blocks; results of every non-writing step symbolic"),
 ]
 HARNESSES += _e2undo("C13")   # the real main() of misc/e2undo.c (sources in harness/E2UNDO)
 
